@@ -145,15 +145,19 @@ func (w *World) RemoteConfig(store mast.Persist, cache mast.NodeCache) *mast.Rem
 		rc.Marshal, rc.Unmarshal = m, u
 		rc.UnmarshalerUsesRegisteredTypes = true
 	}
-	if rc.KeyCompare == nil && w.Cfg.Cmp == "scaled" {
+	if rc.KeyCompare == nil && (w.Cfg.Cmp == "scaled" || w.Cfg.Cmp == "reversed") {
 		mf := rc.Marshal
 		if mf == nil {
 			mf = json.Marshal
 		}
 		def := mast.DefaultKeyCompare(mf)
+		factor := 3
+		if w.Cfg.Cmp == "reversed" {
+			factor = -1
+		}
 		rc.KeyCompare = func(a, b interface{}) (int, error) {
 			r, err := def(a, b)
-			return 3 * r, err
+			return factor * r, err
 		}
 	}
 	if w.WrapMarshal != nil {
